@@ -250,7 +250,7 @@ def render_status(world, p, tid=None):
         a(b"Cpus_allowed_list:\t" + cal.encode())
     a(b"Mems_allowed:\t1")
     a(b"Mems_allowed_list:\t0")
-    if "noctx" not in p.status_extra:
+    if "noctx" not in p.status_extra and not getattr(world, "status_noctx", False):      # (the two lines appeared in 2.6.23)
         a(b"voluntary_ctxt_switches:\t%d" % p.vctx)
         a(b"nonvoluntary_ctxt_switches:\t%d" % p.nvctx)
     if "x86tail" in p.status_extra:
